@@ -33,10 +33,12 @@ def c01_shards(tier):
     sh = []
     quick = tier == "quick"
     tables = [("ambig", T_AMBIG, "+TABZ"), ("impl", T_IMPL, "+DOX")] + [("apt%d" % i, t, "AP+TES") for i, t in enumerate(T_APT if not quick else T_APT[:2])]
-    caps = [(6, 0), (7, 0), (6, 1), (16, 0)] if not quick else [(6, 0), (6, 1), (16, 0)]
-    for (tn, t, alpha), (cap, shared) in itertools.product(tables, caps):
-        sh.append(mcx("lines-%s-cap%d-sh%d" % (tn, cap, shared), prop="C01", table=t, cap=cap, shared=shared, name_alpha=alpha, args_alpha="1A",
-                      max_name=3 if quick else 4, max_args=(cap + 1) if cap <= 7 else 3, D=1 if quick else 2, dev=DEV, lines=2, crlf=1, blank=1, lower=0,
+    caps = [(6, 0), (7, 2), (6, 1), (16, 0)] if not quick else [(6, 0), (6, 1), (16, 0)]
+    # quick: 2 lines, <=1 deviation, names <=3.  thorough: (2 lines, <=1 deviation, names <=4) and (1 line, <=2 deviations, names <=4)
+    variants = [(2, 1, 3)] if quick else [(2, 1, 4), (1, 2, 4)]
+    for (tn, t, alpha), (cap, shared), (lines, D, mn) in itertools.product(tables, caps, variants):
+        sh.append(mcx("lines-%s-cap%d-sh%d-l%dd%d" % (tn, cap, shared, lines, D), prop="C01", table=t, cap=cap, shared=shared, name_alpha=alpha, args_alpha="1A",
+                      max_name=mn, max_args=(cap + 1) if cap <= 7 else 3, D=D, dev=DEV, lines=lines, crlf=1, blank=1, lower=0,
                       refuse_read=1, refuse_write=1, codes_W="OK,ERROR,NEXT,HOLD", codes_R="OK,DATA_OK,DATA_NEXT,ERROR", codes_U="OK,ERROR,LIST,HOLD",
                       codes_T="OK,DATA_OK,ERROR", max_inv=1, act="hold", mon="C01"))
     # unrestricted short byte strings
@@ -59,8 +61,8 @@ def plan(prop, tier):
 def p_c01(tier):
     return {"shards": c01_shards(tier), "require": ["lines_done", "ambiguous_eq", "ambiguous_lf", "overlong", "drain_err", "notfound", "lines_hold"],
             "technique": "explicit-state model checking of the real parser (DFS with state matching over all input bytes, io refusals, handler codes)",
-            "bounds": "tables ambig/impl/A-AP-+TEST orders; cap 6,7,16 shared+separate; grammar lines with <=%d deviations, names <=%d, 2 lines; all byte strings <=%d over 10 symbols"
-                      % ((1, 3, 5) if tier == "quick" else (2, 4, 7)),
+            "bounds": ("tables ambig/impl/A-AP-+TEST (2 orders); cap 6,16 shared+separate; grammar lines with <=1 deviation from 9 bytes, names <=3, 2 lines; all byte strings <=7 over 10 symbols" if tier == "quick" else
+                       "tables ambig/impl/A-AP-+TEST (6 orders); cap 6,7(odd shared),16; grammar lines: 2 lines with <=1 deviation and 1 line with <=2 deviations, names <=4; all byte strings <=9 over 10 symbols"),
             "assumptions": ["handlers eventually return a terminal code (at most 1 NEXT per line)", "descriptor inside the supported domain"]}
 
 
@@ -230,7 +232,7 @@ def p_c15(tier):
         a = list(s["args"]) + ["--liveness", "1"]
         sh.append({"tag": "live-" + s["tag"], "bin": s["bin"], "args": a})
     for s in c01_shards("quick"):
-        if "cap6-sh0" in s["tag"] or "free" in s["tag"]:
+        if "cap6-sh0-l2d1" in s["tag"] or "free" in s["tag"]:
             a = list(s["args"]); a[a.index("--mon") + 1] = "C15"; a[a.index("--prop") + 1] = "C15"
             sh.append({"tag": "live-" + s["tag"], "bin": s["bin"], "args": a + ["--liveness", "1"]})
     return {"shards": sh, "require": ["ok_repeat_checked", "ev_silent", "ev_done", "lines_done"],
@@ -272,7 +274,7 @@ def p_c18(tier):
     for s in c11_shards(tier, prop="C18", mon="C18") + c14_shards(tier, prop="C18", mon="C18"):
         sh.append(s)
     for s in c01_shards("quick"):
-        if "cap6-sh0" in s["tag"]:
+        if "cap6-sh0-l2d1" in s["tag"]:
             a = list(s["args"]); a[a.index("--mon") + 1] = "C18"; a[a.index("--prop") + 1] = "C18"
             sh.append({"tag": "busy-" + s["tag"], "bin": s["bin"], "args": a})
     return {"shards": sh, "require": ["busy_ok_checked", "busy_busy", "hold_yes", "units_evt"],
